@@ -137,7 +137,41 @@ func negotiateCase(domain, ws string, uni bool, tag string) {
 	cs["message"] = hxCase(msg)
 	hold(e, msg, cs)
 	checkNegotiateBytes(e, msg, domain, ws, uni, cs)
+	negotiateFieldsIndependent(e, msg, domain, ws, uni, cs)
 	r.Nontrivial("neg|" + tag)
+}
+
+// negotiateFieldsIndependent: the bytes a descriptor designates are those of its own name. Whatever
+// spelling the library gives a name (as supplied, upper-cased for OEM), it is the spelling the
+// same name gets when the other name is absent; it does not depend on the other name.
+func negotiateFieldsIndependent(e string, msg []byte, domain, ws string, uni bool, cs map[string]any) {
+	if domain == "" || ws == "" || len(domain) > 2000 || len(ws) > 2000 {
+		return
+	}
+	m, ps := readMessage(msg, 1)
+	if len(ps) > 0 || m == nil {
+		return
+	}
+	for _, f := range []struct {
+		field, d, w string
+	}{{"DomainName", domain, ""}, {"Workstation", "", ws}} {
+		var alone []byte
+		var err error
+		p, _, _ := mon.Guard(func() { alone, err = ntlm.CreateNegotiateMessage(f.d, f.w, uni) })
+		r.Eval(1)
+		if p || err != nil {
+			continue // judged where that call is the case under test
+		}
+		ma, pa := readMessage(alone, 1)
+		if len(pa) > 0 || ma == nil {
+			continue
+		}
+		if !bytes.Equal(ma.Fields[f.field], m.Fields[f.field]) {
+			r.Violation(e+":name:"+f.field+":depends-on-other-name", fmt.Sprintf("%s is %s next to the other name and %s alone (domain %q workstation %q unicode=%v)",
+				f.field, hexShort(m.Fields[f.field]), hexShort(ma.Fields[f.field]), domain, ws, uni), cs)
+		}
+		r.Count("negotiate_fields_compared_with_the_name_alone", 1)
+	}
 }
 
 // negotiateStructureOnly: OEM mode with non-ASCII names. What the OEM bytes of such a name are
@@ -162,6 +196,7 @@ func negotiateStructureOnly(domain, ws string, tag string) {
 	for _, q := range ps {
 		r.Violation(e+":oem-nonascii:"+q.Key(), q.Detail, cs)
 	}
+	negotiateFieldsIndependent(e, msg, domain, ws, false, cs)
 	r.Nontrivial("neg-struct|" + tag)
 }
 
@@ -187,6 +222,27 @@ func checkNegotiateBytes(e string, msg []byte, domain, ws string, uni bool, cs m
 	checkName(e, "Workstation", m, m.Flags, ws, true, cs)
 }
 
+// caseVariants: spellings that are the same word as s when letter case is ignored.
+func caseVariants(s string) []string {
+	out := []string{s, strings.ToUpper(s), strings.ToLower(s), strings.Title(strings.ToLower(s))}
+	rs := []rune(s)
+	for i, c := range rs {
+		// one letter replaced by a character that only folds to it
+		for _, sp := range [][2]rune{{'k', '\u212a'}, {'K', '\u212a'}, {'s', '\u017f'}, {'S', '\u017f'}, {'å', '\u212b'}, {'σ', 'ς'}} {
+			if c == sp[0] {
+				v := append([]rune{}, rs...)
+				v[i] = sp[1]
+				out = append(out, string(v))
+			}
+		}
+		if i%2 == 1 {
+			rs[i] = []rune(strings.ToUpper(string(c)))[0]
+		}
+	}
+	out = append(out, string(rs))
+	return out
+}
+
 func negotiateAll() {
 	rng := r.Rand("negotiate")
 	fixed := []string{"", "D", "DOMAIN", "domain", "corp.example.com", "WORKSTATION-01", strings.Repeat("a", 127), strings.Repeat("B", 128), strings.Repeat("c", 255), strings.Repeat("d", 256), strings.Repeat("e", 1000)}
@@ -201,6 +257,19 @@ func negotiateAll() {
 		for j, w := range append(fixedU, "", "WS") {
 			negotiateCase(d, w, true, fmt.Sprintf("fxu|%d|%d", i, j))
 			negotiateCase(w, d, true, fmt.Sprintf("fxu2|%d|%d", i, j))
+		}
+	}
+	// two names that are the same word in different spellings (letter case, special case mappings)
+	for i, d := range []string{"Corp", "fileserver", "WORKSTATION-01", "corp.example.com", "Домен", "straße", "k", "é", "ǆ", "σς"} {
+		for j, w := range caseVariants(d) {
+			negotiateCase(d, w, true, fmt.Sprintf("same-word|u|%d|%d", i, j))
+			negotiateCase(w, d, true, fmt.Sprintf("same-word|u2|%d|%d", i, j))
+			if isASCII7(d) && isASCII7(w) {
+				negotiateCase(d, w, false, fmt.Sprintf("same-word|o|%d|%d", i, j))
+			} else {
+				negotiateStructureOnly(d, w, fmt.Sprintf("same-word|%d|%d", i, j))
+				negotiateStructureOnly(w, d, fmt.Sprintf("same-word|r|%d|%d", i, j))
+			}
 		}
 	}
 	// OEM mode, names with letters whose case mappings change the UTF-8 length (structure only)
@@ -234,6 +303,14 @@ func negotiateAll() {
 		}
 		d, dn := genName(rng, ld, sd)
 		w, wn := genName(rng, lw, sw)
+		if rng.IntN(8) == 0 && d != "" {
+			vs := caseVariants(d)
+			w = vs[rng.IntN(len(vs))]
+			wn = "same-word"
+			if !uni && !isASCII7(w) {
+				w = strings.ToLower(d)
+			}
+		}
 		negotiateCase(d, w, uni, fmt.Sprintf("%v|%s|%s|%s|%s", uni, dn, wn, lenBucket(ld), lenBucket(lw)))
 		if t%(n/2+1) == 0 {
 			r.Sample(map[string]any{"kind": "negotiate", "domain": d, "workstation": w, "unicode": uni})
@@ -283,6 +360,15 @@ func genChallenge(rng *rand.Rand, uni bool, withVersion, withInfo, ess bool, nam
 			f |= fTargetTypeServer
 		}
 		c.spec.TargetName = encName(c.name, f)
+	} else if rng.IntN(2) == 0 {
+		// a target was asked for and the name field is empty: the name the message carries is empty
+		f |= fRequestTarget
+		switch rng.IntN(3) {
+		case 0:
+			f |= fTargetTypeDomain
+		case 1:
+			f |= fTargetTypeServer
+		}
 	}
 	if withInfo {
 		f |= fTargetInfo
